@@ -188,6 +188,24 @@ def r6_purge(ctx: Context) -> None:
         okp = after and final_only
         ctx.add("R6", f"{so.qualname}::purge-scheduled-only-after-successful-final-transition", okp, so.loc(c), "" if okp else ("the purge registration can run although the transition was refused (it precedes the transition or sits on its failure path): a non-final invocation - e.g. RUNNING, after a wrong-owner SUCCESS request - is deleted by auto_purge 24 h later" if not after else "the purge registration is not restricted to final statuses"))
     ctx.floor("R6", "purge registrations", len(purges), 1)
+    # the same ordering argument at the other end of the lifecycle: a new invocation becomes visible in the queue only after it
+    # is stored and has its REGISTERED record (a runner that pops an id without record drops the message: registered later,
+    # queued never)
+    rn = base.methods.get("register_new_invocations")
+    if rn is None:
+        raise AnalysisError("anchor-vanished: BaseOrchestrator.register_new_invocations")
+    gr, pmr = func_cfg(ctx.repo, rn), parent_map(rn.node)
+    domr = gr.dominators(exc_edges=False)
+    routes = [c for c in _ci(rn.node) if _cn(c) in ("route_invocations", "route_invocation")]
+    if not routes:
+        raise AnalysisError("anchor-vanished: register_new_invocations routes nothing")
+    for c in routes:
+        rnodes = cfg_node_of(gr, rn.node, c, pmr)
+        for pre in ("upsert_invocations", "_register_new_invocations"):
+            pcs = [x for x in _ci(rn.node) if _cn(x) == pre]
+            pn = {n.id for x in pcs for n in cfg_node_of(gr, rn.node, x, pmr)}
+            okr = bool(pn) and all(domr.get(n.id, set()) & pn for n in rnodes)
+            ctx.add("R6", f"{rn.qualname}::routed-only-after::{pre}", okr, rn.loc(c), "" if okr else f"the ids are put in the queue before {pre} has run on every path: a runner polling in between pops an id that has no {'stored invocation' if pre == 'upsert_invocations' else 'status record'}, cannot claim it and drops the message - the invocation is registered a moment later and is never queued again")
 
 
 def run(ctx: Context) -> None:
